@@ -260,6 +260,71 @@ def one_case(ctx, rng, idx):
         rep.corr('observe:stream', case, got, want)
 
 
+PERSISTING = ['dump_to_path', 'dump_to_path_json', 'dump_to_zip', 'stream', 'checkpoint']
+
+
+def committed(cap):
+    """the artefact whose presence says "this observer's capture is there": descriptor of a dump, final name of a stream"""
+    k = cap.kind
+    try:
+        if k in ('dump_to_path', 'dump_to_path_json'):
+            return os.path.exists(os.path.join(cap.dir, 'datapackage.json'))
+        if k == 'dump_to_zip':
+            p = os.path.join(cap.dir, 'out.zip')
+            if not os.path.exists(p):
+                return False
+            try:
+                with zipfile.ZipFile(p) as z:
+                    return 'datapackage.json' in z.namelist()
+            except zipfile.BadZipFile:
+                return False
+        if k == 'stream':
+            return os.path.exists(os.path.join(cap.dir, 'stream.ndjson'))
+        if k == 'checkpoint':
+            return os.path.exists(os.path.join(cap.dir, 'cp', 'stream.ndjson'))
+    except OSError:
+        return False
+    return False
+
+
+def failing_suffix_case(ctx, rng, idx):
+    """a later step fails while the rows stream: whatever capture the observer leaves committed is the complete stream at
+    its position (or there is none) - never a partial one that a later run or another tool would take for the whole"""
+    rep = ctx.report
+    desc, rows, names = gen_base(rng)
+    pre = prefix_steps(rng)
+    kind = PERSISTING[idx % len(PERSISTING)]
+    total = sum(len(r) for r in rows)
+    if total == 0:
+        return
+    fail_at = rng.choice([1, total // 2 + 1, total]) if rng.random() < 0.8 else rng.randint(1, total)
+    seen = [0]
+
+    def boom(row):
+        seen[0] += 1
+        if seen[0] == fail_at:
+            raise RuntimeError('downstream fault')
+        return row
+    case = {'observer': kind, 'prefix': [l for l, _ in pre], 'suffix': 'row step failing at row %d of %d' % (fail_at, total),
+            'rows_per_resource': [len(r) for r in rows]}
+    cap = Capture(kind, ctx.scratch, 'x%d' % idx)
+    res = run_flow(desc, rows, [f() for _, f in pre] + cap.steps() + [boom])
+    rep.case('observe-then-fail:' + kind, case, nontrivial='err' in res)
+    if 'ok' in res:
+        return      # the prefix dropped the rows before the failing position
+    if not committed(cap):
+        rep.hist('after_failure', 'nothing committed')
+        return
+    rep.hist('after_failure', 'committed')
+    alone_cap = Capture(kind, ctx.scratch, 'y%d' % idx)
+    alone = run_flow(desc, rows, [f() for _, f in pre] + alone_cap.steps())
+    if 'ok' not in alone:
+        return
+    if cap.persisted() != alone_cap.persisted():
+        rep.fail('partial-capture-committed-after-downstream-failure:%s' % kind, case,
+                 {'committed': True, 'equals_full_stream': False})
+
+
 def _typed_rows(alone):
     return [[dict((k, v) for k, v in row) for row in r['rows']] for r in alone['ok']]
 
@@ -294,6 +359,9 @@ def run(ctx):
     rng = ctx.rng('main')
     for idx in range(ctx.n(300, 4000)):
         one_case(ctx, rng, idx)
+    rngf = ctx.rng('failing-suffix')
+    for idx in range(ctx.n(60, 800)):
+        failing_suffix_case(ctx, rngf, idx)
 
     def search(disagreements):
         rng2 = ctx.rng('search')
